@@ -336,6 +336,11 @@ def q3(ctx):
     for name, fresh in (("compose_partial", False), ("compose_fresh", True)):
         b = mir.inline_view(crate, m(crate, name), depth=2, policy=sm_private - {m(crate, name).id})
         ctx.check(visits_all_of(crate, b, "self"), "iterates-self:" + name, "%s visits every pair of self" % name, "%s does not visit every pair of self" % name, where_of(b))
+        # ... on every path: no shortcut that answers with another operation's result (`if other.len() >= self.len() { return
+        # self.compose_partial(other) }` — sizes say nothing about which keys `other` covers)
+        deleg = [d_["call"].callee.name for d_ in b.defs().get(0, []) if d_["kind"] == "call" and d_["call"].callee and d_["call"].callee.name in ("compose", "compose_partial", "compose_fresh", "union", "try_union", "inverse") and d_["call"].callee.name != name]
+        ctx.check(not deleg, "no-conditional-delegation:" + name, "%s answers only with the map its own traversal built" % name,
+                  "%s can answer with the result of %s instead of the map built by visiting every pair of self: the two operations differ exactly on the inputs the shortcut's condition does not rule out (for compose_fresh: a value of self that `other` does not cover must get a fresh image, not be dropped)" % (name, deleg), where_of(b))
         pairs = result_pairs(crate, b)
         nget = 0
         expanded = []
